@@ -27,13 +27,21 @@ QUEUE = "self.pending_events"
 
 SELFTEST = [
     {"mutation": "seeded/C45: OutboundUnsupportedProtocols arm no longer calls remove_pending_outbound_response", "caught_by": "arm/OutboundUnsupportedProtocols: pending-set removal exactly once"},
-    {"mutation": "InboundTimeout arm: push the InboundFailure unconditionally (drop `if removed`)", "caught_by": "arm/InboundTimeout: nothing queued when nothing was removed"},
-    {"mutation": "on_dial_failure: `.get(&peer)`+clone instead of `.remove(&peer)`", "caught_by": "dial-failure/queued requests are taken (HashMap::remove)"},
-    {"mutation": "on_connection_closed: second loop emits InboundFailure instead of OutboundFailure", "caught_by": "closed/pending_outbound_responses -> OutboundFailure::ConnectionClosed"},
+    {"mutation": "InboundTimeout arm: push the InboundFailure before / regardless of `if removed`", "caught_by": "arm/InboundTimeout: outcome only after the id was removed"},
+    {"mutation": "InboundStreamFailed arm: `if !removed`", "caught_by": "arm/InboundStreamFailed: removed => exactly one outcome"},
+    {"mutation": "ResponseOmission arm: is_pending_inbound instead of remove_pending_inbound_response", "caught_by": "arm/ResponseOmission: pending-set removal exactly once"},
+    {"mutation": "on_dial_failure: `.get(&peer)` + iter() instead of `.remove(&peer)`", "caught_by": "dial-failure/queued requests are taken (HashMap::remove)"},
+    {"mutation": "on_connection_closed: second loop emits nothing", "caught_by": "closed/pending_outbound_responses: one failure per pending id"},
+    {"mutation": "preload_new_handler: register the connection only if it has pending requests", "caught_by": "preload/the connection (with its pending set) is registered on every path"},
     {"mutation": "try_send_request: drop conn.pending_outbound_responses.insert", "caught_by": "try-send/None <=> id tracked and handler notified"},
-    {"mutation": "Handler::poll: (Outbound, Err(Timeout)) arm returns InboundTimeout-like OutboundStreamFailed", "caught_by": "handler-poll/worker result table"},
-    {"mutation": "on_dial_upgrade_error: Timeout arm pushes nothing", "caught_by": "dial-upgrade-error/Timeout -> OutboundTimeout"},
+    {"mutation": "send_request_with_addresses: drop(request) instead of queueing it", "caught_by": "send/a request handed back is queued exactly once (with one dial)"},
     {"mutation": "next_outbound_request_id: `+= 0`", "caught_by": "ids/outbound counter advances by one"},
+    {"mutation": "next_outbound_request_id: increment before taking the copy", "caught_by": "ids/accessor returns the pre-increment value"},
+    {"mutation": "Handler::poll: (Outbound, Err(Timeout)) arm falls through without an event", "caught_by": "handler-poll/worker result table + every finished worker yields exactly one event"},
+    {"mutation": "Handler::poll: (Inbound, Err(Timeout)) reports ResponseOmission", "caught_by": "handler-poll/worker result table"},
+    {"mutation": "Handler::poll: popped request dropped instead of pushed to requested_outbound", "caught_by": "handler-poll/an outbound request moves to requested_outbound exactly when its substream is requested"},
+    {"mutation": "on_dial_upgrade_error: Timeout arm pushes nothing", "caught_by": "dial-upgrade-error/Timeout -> OutboundTimeout"},
+    {"mutation": "on_fully_negotiated_outbound: failed try_push reports nothing", "caught_by": "negotiated-outbound/a rejected worker yields exactly one OutboundStreamFailed, an accepted one none"},
 ]
 
 # arm -> (pending set, request-id field of the handler event, (Event variant, sub-adt, sub-variant), conditional?)
@@ -77,6 +85,27 @@ def queue_pushes(b, queue=QUEUE, adt_pat=EV):
         o = outcome_of(e[2][1], adt_pat)
         if o is not None:
             out.append((s, o))
+    return out
+
+
+def truth_edges(b, site, value):
+    """CFG edges on which the bool result of the call at `site` is known to be `value` (looks through `!`)."""
+    out = set()
+    for bi in b.live:
+        info = b.switch_info(bi)
+        if not info:
+            continue
+        cond, labs = info
+        neg = False
+        while cond[0] == "un" and cond[1] == "Not":
+            cond = cond[2]
+            neg = not neg
+        if not (cond[0] == "call" and cond[3] == site.bb):
+            continue
+        want = "true" if (value != neg) else "false"
+        for tgt, ls in labs.items():
+            if ls == {want}:
+                out.add((bi, tgt))
     return out
 
 
@@ -142,10 +171,10 @@ def check(ctx):
             pe = render(h.site_expr(s))
             ctx.ob("arm", "%s: outcome carries this event's peer and connection" % arm, "peer: peer, connection_id: connection_id" in pe, s.loc(), pe[90:200])
         # whenever removed: exactly one outcome; never two
-        false_edges, true_tgts = set(), []
+        false_edges, true_edges = set(), set()
         for s in rem:
-            false_edges |= lib.switch_edges_on_site(h, s, {"false"})
-            true_tgts += [t for _, t in lib.switch_edges_on_site(h, s, {"true"})]
+            false_edges |= truth_edges(h, s, False)
+            true_edges |= truth_edges(h, s, True)
         got = lib.count_range(h, [ent], rets, lib.bbs(right), blocked_edges=false_edges)
         ctx.ob("arm", "%s: removed => exactly one outcome" % arm, got == (1, 1), right[0].loc() if right else "",
                "outcome pushes on every path of the arm on which the id was removed: %s (expected (1, 1))" % (got,))
@@ -156,6 +185,10 @@ def check(ctx):
             got = lib.count_range(h, ftg, rets, all_push_bbs) if ftg else None
             ctx.ob("arm", "%s: nothing queued when nothing was removed" % arm, got == (0, 0), rem[0].loc() if rem else "",
                    "outcome pushes on the not-removed edge: %s (expected (0, 0))" % (got,))
+            for s, _ in mine:
+                ok = bool(true_edges) and h.must_pass_edges(s.bb, true_edges, ent)
+                ctx.ob("arm", "%s: outcome only after the id was removed" % arm, ok, s.loc(),
+                       "every path of the arm to the push passes the `removed == true` edge" if ok else "a path reaches the push without `removed` being known true")
     # Request arm
     ents = lib.arm_entry(h, r"^discr\(event\)$", "Request")
     if len(ents) == 1:
